@@ -506,12 +506,16 @@ def _extract_transform(
         # Figure out fallback resolution if possible and try again
         if crs_coord is None:
             return None
-        if (original_transform := _extract_geo_transform(crs_coord)) is None:
-            return None
-        fallback_res = resolution_from_affine(original_transform)
-        if not gcp and _xx.encoding.get("_transform", None) is not None:
-            # axis labels are in pixel space: 1 pixel apart
+        if gcp:
+            # axis labels are pixel coordinates: 1 pixel apart
             fallback_res = Resolution(1, 1)
+        else:
+            if (original_transform := _extract_geo_transform(crs_coord)) is None:
+                return None
+            fallback_res = resolution_from_affine(original_transform)
+            if _xx.encoding.get("_transform", None) is not None:
+                # axis labels are in pixel space: 1 pixel apart
+                fallback_res = Resolution(1, 1)
         try:
             transform = affine_from_axis(
                 _xx.values,
